@@ -901,6 +901,140 @@ impl Family for Utf8Texts {
     }
 }
 
+/// long texts made of multi-byte characters, so that every byte offset up to 330 falls inside a
+/// character for some text: k ASCII bytes, then n characters of 2, 3 or 4 bytes, as the text of
+/// USE / COM_INIT_DB / a query / PREPARE / COM_FIELD_LIST. A server that quotes, truncates or
+/// limits such a text at a byte count must not slice inside a character.
+struct LongMultibyteTexts;
+const LMT_CHARS: [&str; 3] = ["\u{e9}", "\u{3000}", "\u{1f600}"];
+const LMT_CMDS: [(u8, &str); 6] = [(COM_QUERY, "USE "), (COM_QUERY, "USE `"), (COM_INIT_DB, ""), (COM_QUERY, "q "), (COM_STMT_PREPARE, "id=1 p=1 "), (COM_FIELD_LIST, "")];
+impl LongMultibyteTexts {
+    fn case(idx: u64) -> (u8, Vec<u8>) {
+        let d = digits(idx, &[LMT_CMDS.len() as u64, 3, 4, 111]);
+        let (cmd, lead) = LMT_CMDS[d[0] as usize];
+        let ch = LMT_CHARS[d[1] as usize];
+        let mut t = lead.to_string();
+        for _ in 0..d[2] {
+            t.push('a');
+        }
+        for _ in 0..d[3] {
+            t.push_str(ch);
+        }
+        if lead.ends_with('`') {
+            t.push('`');
+        }
+        (cmd, t.into_bytes())
+    }
+}
+impl Family for LongMultibyteTexts {
+    fn name(&self) -> String {
+        "long-texts-of-multi-byte-characters".into()
+    }
+    fn len(&self) -> u64 {
+        LMT_CMDS.len() as u64 * 3 * 4 * 111
+    }
+    fn run(&self, idx: u64, st: &mut Stats) -> Result<(), Violation> {
+        let (cmd, bytes) = Self::case(idx);
+        st.nontrivial += 1;
+        st.bump("long_multibyte_texts");
+        let mut s = prefix(1);
+        s.extend_from_slice(&frame(0, &with_byte(cmd, &bytes)).0);
+        s.extend_from_slice(&frame(0, &[COM_PING]).0);
+        judge(s, &format!("command {:#04x} with a text of {} bytes", cmd, bytes.len()), st)
+    }
+    fn describe(&self, idx: u64) -> J {
+        let (cmd, bytes) = Self::case(idx);
+        json!({"command": cmd, "text_bytes": bytes.len(), "text_starts": String::from_utf8_lossy(&bytes[..bytes.len().min(24)])})
+    }
+}
+
+/// statements with very many parameters (counts around 2^8, 2^15 and 2^16), executed with a full
+/// type table and values, with the table only, with NULLs only, reusing the table, and with blocks
+/// cut at several points: arithmetic on the count (2 * n, n + 7, n / 8) must not overflow or index
+/// out of range
+struct WideStatements;
+const WIDE_COUNTS: [usize; 12] = [255, 256, 257, 4095, 8191, 16383, 16384, 32767, 32768, 32769, 65534, 65535];
+impl WideStatements {
+    fn stream(idx: u64) -> (Vec<u8>, String) {
+        let d = digits(idx, &[WIDE_COUNTS.len() as u64, 7]);
+        let n = WIDE_COUNTS[d[0] as usize];
+        let mut s = default_handshake();
+        s.extend_from_slice(&frame(0, &with_byte(COM_STMT_PREPARE, format!("id=1 p={}", n).as_bytes())).0);
+        let bitmap = vec![0u8; (n + 7) / 8];
+        let mut types = Vec::with_capacity(2 * n);
+        let mut values = Vec::with_capacity(n);
+        for i in 0..n {
+            types.extend_from_slice(&[0x01, if i % 2 == 0 { 0x00 } else { 0x80 }]);
+            values.push((i % 200) as u8);
+        }
+        let mut full = bitmap.clone();
+        full.push(1);
+        full.extend_from_slice(&types);
+        full.extend_from_slice(&values);
+        let mut reuse = bitmap.clone();
+        reuse.push(0);
+        reuse.extend_from_slice(&values);
+        let all_null: Vec<u8> = {
+            let mut b = vec![0xffu8; (n + 7) / 8];
+            b.push(1);
+            b.extend_from_slice(&types);
+            b
+        };
+        let what;
+        match d[1] {
+            0 => {
+                what = "a full block";
+                s.extend_from_slice(&frame(0, &cmd_execute(1, 0, 1, &full)).0);
+            }
+            1 => {
+                what = "a full block, then a block that reuses the types";
+                s.extend_from_slice(&frame(0, &cmd_execute(1, 0, 1, &full)).0);
+                s.extend_from_slice(&frame(0, &cmd_execute(1, 0, 1, &reuse)).0);
+            }
+            2 => {
+                what = "a block that reuses types never bound";
+                s.extend_from_slice(&frame(0, &cmd_execute(1, 0, 1, &reuse)).0);
+            }
+            3 => {
+                what = "every parameter NULL";
+                s.extend_from_slice(&frame(0, &cmd_execute(1, 0, 1, &all_null)).0);
+            }
+            4 => {
+                what = "a block cut in the middle of the type table";
+                s.extend_from_slice(&frame(0, &cmd_execute(1, 0, 1, &full[..bitmap.len() + 1 + n])).0);
+            }
+            5 => {
+                what = "a block cut behind the type table";
+                s.extend_from_slice(&frame(0, &cmd_execute(1, 0, 1, &full[..bitmap.len() + 1 + 2 * n])).0);
+            }
+            _ => {
+                what = "long data for the last parameter, then a full block";
+                s.extend_from_slice(&frame(0, &cmd_long(1, (n - 1) as u16, b"tail")).0);
+                s.extend_from_slice(&frame(0, &cmd_execute(1, 0, 1, &full)).0);
+            }
+        }
+        s.extend_from_slice(&frame(0, &[COM_PING]).0);
+        (s, format!("a statement of {} parameters executed with {}", n, what))
+    }
+}
+impl Family for WideStatements {
+    fn name(&self) -> String {
+        "statements-with-very-many-parameters".into()
+    }
+    fn len(&self) -> u64 {
+        WIDE_COUNTS.len() as u64 * 7
+    }
+    fn run(&self, idx: u64, st: &mut Stats) -> Result<(), Violation> {
+        let (s, what) = Self::stream(idx);
+        st.nontrivial += 1;
+        st.bump("wide_statements");
+        judge(s, &what, st)
+    }
+    fn describe(&self, idx: u64) -> J {
+        json!(Self::stream(idx).1)
+    }
+}
+
 /// what stands behind the user name of a handshake response: every length-prefix form (announcing 0
 /// .. 2^64-1 bytes, truncated prefixes) followed by 0..300 actual bytes, under every combination of
 /// the capability bits that give those bytes a meaning (secure connection, length-encoded auth data,
@@ -990,6 +1124,8 @@ pub fn build(quick: bool) -> Check {
         families.push(Box::new(Lifecycles { depth: d, two: true }));
     }
     families.push(Box::new(Utf8Texts));
+    families.push(Box::new(LongMultibyteTexts));
+    families.push(Box::new(WideStatements));
     families.push(Box::new(LenencExtremes));
     families.push(Box::new(HandshakeTails));
     families.push(Box::new(LargeInputs::new(if quick { &[MAXP, MAXP + 7] } else { &[MAXP - 1, MAXP, MAXP + 7, 2 * MAXP, 2 * MAXP + 7] })));
@@ -999,7 +1135,7 @@ pub fn build(quick: bool) -> Check {
     Check {
         id: "C20",
         level: "model_checking",
-        rule: "client byte strings: all raw strings of length <= 5/7 over a 13-symbol alphabet of command and marker bytes (after handshake+PREPARE, and as the handshake itself); all framed payloads of length <= 2/3 over all 256 byte values; COM_STMT_EXECUTE parameter blocks (4 bitmaps x 3 flags x 256 type codes x unsigned x values of <= 3 bytes over 6 marker bytes, with and without a preceding valid bind; 1/2/9 declared parameters); every prefix of well-formed bind and reuse blocks x NULL bitmaps x pending long data x earlier bind; for 5 valid conversations and 3 handshake forms every single-byte substitution by every value (this includes every sequence id 0..255 and every length-field value on every packet), every truncation, deletion and duplication; two-fragment requests with every pair of fragment ids from a boundary set; variable-length parameter values behind every length-prefix form announcing 0..2^64-1 bytes (and every length byte for the temporal types) with 0..300 bytes present; requests of 2^24-1 bytes and more, well-formed or with a missing / lying continuation, under a read boundary at every position around each packet header and the end of the stream; every statement lifecycle of <= 4 (thorough: 6) actions over re-prepares with 1/2/3 parameters, bind/reuse executions, long data and close, encoded by a client that follows the re-prepares and by one that does not, and of <= 5 (6) actions with a second statement (prepare, execute, long data, close) next to it, each ending at a packet boundary and two bytes into a header; query / prepare / init-db / USE texts with a multi-byte character at every byte offset 0..12, whole, cut inside the character, and behind a stray continuation byte; an SSL request (to a shim that offers TLS) followed by anything but a TLS handshake: every 1- (thorough: 2-) byte string, TLS record headers of every content type / version / length class with partial bodies, a plaintext handshake response, a recorded ClientHello with every byte damaged five ways and every truncation - the shim must never be reached. Oracle: run_on returns (Ok or Err) without panicking and within 200000 transport operations; flushed output is well-framed. Non-trivial = input differs from a valid conversation.".into(),
+        rule: "texts of 0..444 bytes made of 2-, 3- and 4-byte characters behind 0..3 ASCII bytes (every byte offset falls inside a character for some text) as USE / COM_INIT_DB / query / PREPARE / COM_FIELD_LIST text; statements of 255..65535 parameters executed with full, reusing, all-NULL and cut blocks and with long data for the last parameter; client byte strings: all raw strings of length <= 5/7 over a 13-symbol alphabet of command and marker bytes (after handshake+PREPARE, and as the handshake itself); all framed payloads of length <= 2/3 over all 256 byte values; COM_STMT_EXECUTE parameter blocks (4 bitmaps x 3 flags x 256 type codes x unsigned x values of <= 3 bytes over 6 marker bytes, with and without a preceding valid bind; 1/2/9 declared parameters); every prefix of well-formed bind and reuse blocks x NULL bitmaps x pending long data x earlier bind; for 5 valid conversations and 3 handshake forms every single-byte substitution by every value (this includes every sequence id 0..255 and every length-field value on every packet), every truncation, deletion and duplication; two-fragment requests with every pair of fragment ids from a boundary set; variable-length parameter values behind every length-prefix form announcing 0..2^64-1 bytes (and every length byte for the temporal types) with 0..300 bytes present; requests of 2^24-1 bytes and more, well-formed or with a missing / lying continuation, under a read boundary at every position around each packet header and the end of the stream; every statement lifecycle of <= 4 (thorough: 6) actions over re-prepares with 1/2/3 parameters, bind/reuse executions, long data and close, encoded by a client that follows the re-prepares and by one that does not, and of <= 5 (6) actions with a second statement (prepare, execute, long data, close) next to it, each ending at a packet boundary and two bytes into a header; query / prepare / init-db / USE texts with a multi-byte character at every byte offset 0..12, whole, cut inside the character, and behind a stray continuation byte; an SSL request (to a shim that offers TLS) followed by anything but a TLS handshake: every 1- (thorough: 2-) byte string, TLS record headers of every content type / version / length class with partial bodies, a plaintext handshake response, a recorded ClientHello with every byte damaged five ways and every truncation - the shim must never be reached. Oracle: run_on returns (Ok or Err) without panicking and within 200000 transport operations; flushed output is well-framed. Non-trivial = input differs from a valid conversation.".into(),
         assumptions: vec![
             "random bytes are not used as a deciding step (sampling is outside this family)".into(),
             "the shim iterates all parameters and reads them with into_inner(); the panicking From<Value> conversions are the shim author's calls, not run_on's".into(),
@@ -1008,6 +1144,6 @@ pub fn build(quick: bool) -> Check {
         exhaustive: true,
         caps_hit: vec![],
         families,
-        required: vec!["handshake_tail_cases", "utf8_texts", "lifecycle_inputs", "tls_garbage_cases", "length_prefix_cases", "large_inputs", "outcome_ok", "outcome_err", "executes_reaching_the_shim", "sequence_id_mutations", "length_field_mutations", "out_of_order_fragments", "block_prefixes"],
+        required: vec!["long_multibyte_texts", "wide_statements", "handshake_tail_cases", "utf8_texts", "lifecycle_inputs", "tls_garbage_cases", "length_prefix_cases", "large_inputs", "outcome_ok", "outcome_err", "executes_reaching_the_shim", "sequence_id_mutations", "length_field_mutations", "out_of_order_fragments", "block_prefixes"],
     }
 }
